@@ -63,13 +63,21 @@ def ratio_ok(chunk):
 
 
 def chunk_of(rng, kind, n):
+    """one fragment's worth of data of the given kind; whatever the kind, a fragment that would compress more than 255-fold is
+    replaced by random bytes (ZlibCompression.compress cannot represent the ratio: it raises - possible only beyond the property's
+    range of fragment sizes, e.g. 9000 equal bytes)"""
+    c = chunk_of0(rng, kind, n)
+    return c if (n <= 1400 or ratio_ok(c)) else rng.randbytes(n)
+
+
+def chunk_of0(rng, kind, n):
     if n <= 0: return b""
     if kind == "rand":
         return rng.randbytes(n)
     if kind == "rep":
         unit = rng.randbytes(rng.choice([1, 2, 5]))
         c = (unit * (n // len(unit) + 1))[:n]
-        return c if ratio_ok(c) else chunk_of(rng, "alpha", n)
+        return c if ratio_ok(c) else chunk_of0(rng, "alpha", n)
     if kind == "tail":
         noise = min(n, rng.choice([100, 200, 300, 600, 900]))
         return rng.randbytes(noise) + bytes(i % 7 for i in range(n - noise))
